@@ -254,7 +254,8 @@ func init() {
 									obs, pts := c08run(w, cfg, np)
 									c.Distinct("states", cfg.id+"|"+fmt.Sprint(np))
 									c.Add("transitions", int64(len(pts)))
-									c.Count("executions"); c.Count("evaluations_override")
+									c.Count("executions")
+									c.Count("evaluations_override")
 									c.Distinct("outcomes", cfg.id+"|"+obs.key())
 									if obs.key() != base.key() {
 										// replay twice before believing it
@@ -359,7 +360,8 @@ func init() {
 						files := []File{{"c.yaml", cfg.YAML()}}
 						br := w.Build(files)
 						c.Distinct("nontrivial", c.ID)
-						c.Count("key_permutations"); c.Count("evaluations_override")
+						c.Count("key_permutations")
+						c.Count("evaluations_override")
 						if br.Output != getRef() {
 							c.Violation("key-order-dependent:"+m.id, fmt.Sprintf("reordering the keys of %s (permutation %v) changes the generated file: %s", m.id, p, firstDiff(getRef(), br.Output)), FilesMap(files), nil)
 						}
@@ -374,7 +376,8 @@ func init() {
 									m2.permute(cfg, q)
 									files := []File{{"c.yaml", cfg.YAML()}}
 									br := w.Build(files)
-									c.Count("key_permutations"); c.Count("evaluations_override")
+									c.Count("key_permutations")
+									c.Count("evaluations_override")
 									if br.Output != getRef() {
 										c.Violation("key-order-dependent:"+m.id+"+"+m2.id, "reordering keys changes the generated file: "+firstDiff(getRef(), br.Output), FilesMap(files), nil)
 									}
@@ -432,7 +435,8 @@ func init() {
 						b, _ := os.ReadFile(filepath.Join(dir, "out.go"))
 						k := fmt.Sprintf("%d|%s|%s", code, Sha(string(out)), Sha(string(b)))
 						seen[k] = label + "\n" + string(out)
-						c.Count("process_runs"); c.Count("evaluations_override")
+						c.Count("process_runs")
+						c.Count("evaluations_override")
 					}
 					for ei, env := range envs {
 						for _, cwd := range []string{dir, "/"} {
